@@ -105,6 +105,9 @@ func genDoc(t *rapid.T, label string) model.Doc {
 	if rapid.IntRange(0, 3).Draw(t, label+"-rank") > 0 {
 		d["rank"] = int64(rapid.IntRange(0, 3).Draw(t, label+"-rk"))
 	}
+	if rapid.IntRange(0, 3).Draw(t, label+"-nested") > 0 {
+		d["meta"] = map[string]any{"rank": int64(rapid.IntRange(0, 5).Draw(t, label+"-mrk"))} // a sort key below a map
+	}
 	if rapid.IntRange(0, 3).Draw(t, label+"-hastags") > 0 {
 		d["tags"] = rapid.SliceOfNDistinct(rapid.SampledFrom([]string{"Go", "go", "RUST", "rust", "Zig"}), 1, 3, rapid.ID[string]).Draw(t, label+"-tags")
 	}
@@ -208,7 +211,7 @@ func genCase(t *rapid.T) Case {
 				sp.Weight = &w
 			}
 			if rapid.IntRange(0, 2).Draw(t, fmt.Sprintf("hs%d", i)) == 0 {
-				sp.Sort = append(sp.Sort, models.SortOption{Property: rapid.SampledFrom([]string{"n", "rank", "tag"}).Draw(t, fmt.Sprintf("sp%d", i)), Descending: rapid.Bool().Draw(t, fmt.Sprintf("sd%d", i))})
+				sp.Sort = append(sp.Sort, models.SortOption{Property: rapid.SampledFrom([]string{"n", "rank", "tag", "meta.rank", "meta.rank"}).Draw(t, fmt.Sprintf("sp%d", i)), Descending: rapid.Bool().Draw(t, fmt.Sprintf("sd%d", i))})
 				if rapid.Bool().Draw(t, fmt.Sprintf("s2%d", i)) {
 					sp.Sort = append(sp.Sort, models.SortOption{Property: "n", Descending: rapid.Bool().Draw(t, fmt.Sprintf("sd2%d", i))})
 				}
